@@ -32,6 +32,7 @@ ASSUME = [
 
 a, b, c, d = 'a', 'b', 'c', 'd'
 SHAPES = {
+    'chain2': [E(A(a), b)],
     'chain': [E(A(a), b), E(A(b), c)],
     'diamond': [E(A(a), b), E(A(a), c), E(AND(A(b), A(c)), d)],
     'ordiamond': [E(A(a), b), E(A(a), c), E(OR(A(b), A(c)), d)],
@@ -80,6 +81,13 @@ def rows(tier: str):
          [[trig(b, 'none'), trig(a, '2', True)],
           [trig(a, 'new'), trig(a, 'all')]]),
     ]
+    if tier == 'probe':
+        return [
+            ('p0', 'chain2', [[trig(b, 'new'), trig(b, '2')], [trig(b, 'new')]], 1, ['early', 'after-restart']),
+            ('p1', 'chain', [[trig(a, 'new')]], 0),
+            ('p2', 'chain', [[trig(a, '1'), trig(a, 'all')]], 0),
+            ('p3', 'chain', [[trig(b, 'none')]], 0),
+        ]
     if tier == 'quick':
         return q
     return q
@@ -87,9 +95,11 @@ def rows(tier: str):
 
 def catalogue(tier: str):
     out = []
-    for name, shape, op_lists in rows(tier):
+    for name, shape, op_lists, *rest in rows(tier):
         sp = spec_from([('P1', SHAPES[shape])], 1, 1, name=name)
         sp['op_lists'] = op_lists
+        sp['restarts'] = rest[0] if rest else 1
+        sp['whens'] = rest[1] if len(rest) > 1 else None
         out.append(sp)
     return out
 
@@ -97,9 +107,10 @@ def catalogue(tier: str):
 def make_factory(spec, tier='quick'):
     def factory():
         return FlowProfile(
-            spec, op_lists=spec['op_lists'],
-            stops=('REQUEST_NOW_NOW',), max_restarts=1, stop_after_op=True,
-            monitors=[RefFlows, PoolInvariants], jump=(), macro=bool(int(__import__("os").environ.get("MACRO","0"))))
+            spec, op_lists=spec['op_lists'], whens=spec['whens'],
+            stops=('REQUEST_NOW_NOW',) if spec['restarts'] else (),
+            max_restarts=spec['restarts'], stop_after_op=True,
+            monitors=[RefFlows, PoolInvariants], jump=())
     return factory
 
 
